@@ -155,7 +155,8 @@ Definition next_state (s:mstate) (op:mop) (o:obs) : mstate :=
 
 (* ================================================================== content monitors (C07, C08, C10, C13) *)
 Record ccfg := { cc_mech : N;          (* 0 none, 1 ST (learn), 2 ST MI, 3 ST SHA, 4 LT *)
-                 cc_fp : bool; cc_reliable : bool }.
+                 cc_fp : bool; cc_reliable : bool;
+                 cc_rto : N; cc_gran : N }.   (* configured RTO and clock granularity, nanoseconds *)
 
 Definition first_out (o:obs) : option (option msg) :=
   match find (fun e => match e with EOut _ true _ _ => true | _ => false end) (ob_events o) with
@@ -397,18 +398,67 @@ Definition mon_C08 (c:ccfg) (s:lt_mon) (op:mop) (o:obs) : lt_mon * N :=
   | MTmo _ => (s, 0)
   end.
 
+(* ---- C15: RFC 6298 estimator (alpha = 1/8, beta = 1/4, K = 4, granularity G, no rounding up to a second), Karn's rule,
+   staleness after more than ten minutes between consecutive requests. Fixed point: 1 unit = 2^-16 ns, so the rounding
+   of this reference (at most 2^-16 ns per update) is far below the property's tolerance 1e-5 * RTO + 1 us. *)
+Definition fx (ns:N) : N := ns * 65536.
+Record rtt_mon := { rm_est : option (N * N);     (* srtt, rttvar; None = no sample since the start / the last reset *)
+                    rm_last : option N;          (* instant of the latest request *)
+                    rm_poisoned : bool }.        (* a zero-length response time occurred: outside the property *)
+Definition rtt_mon0 := {| rm_est := None; rm_last := None; rm_poisoned := false |}.
+Definition absdiff (a b:N) : N := if a <? b then b - a else a - b.
+Definition rfc6298_update (est:option (N*N)) (r:N) : option (N*N) :=
+  match est with
+  | None => Some (r, r / 2)
+  | Some (srtt, rttvar) => Some ((7 * srtt + r) / 8, (3 * rttvar + absdiff srtt r) / 4)
+  end.
+Definition rfc6298_rto (c:ccfg) (est:option (N*N)) : N :=
+  match est with
+  | None => fx (cc_rto c)
+  | Some (srtt, rttvar) => srtt + N.max (fx (cc_gran c)) (4 * rttvar)
+  end.
+Definition within_tolerance (observed expected:N) : bool :=
+  absdiff observed expected <=? expected / 100000 + fx 1000.
+Definition mon_C15 (c:ccfg) (core:mstate) (s:rtt_mon) (op:mop) (o:obs) : rtt_mon * bool :=
+  if cc_reliable c then (s, true) else
+  match op with
+  | MSend now _ r _ _ =>
+      match ob_ret o with
+      | OOk =>
+          let est := match rm_last s with
+                     | Some l => if 600000000000 <? now - l then None else rm_est s
+                     | None => rm_est s end in
+          ({| rm_est := est; rm_last := Some now; rm_poisoned := rm_poisoned s |},
+           rm_poisoned s || within_tolerance (fx r) (rfc6298_rto c est))
+      | _ => (s, true)
+      end
+  | MRecv now _ _ =>
+      (* every transaction completed by this response without having been retransmitted contributes its response time *)
+      let s' := fold_left (fun st i =>
+                  match find_sent i core with
+                  | Some x => if s_ntx x =? 1
+                              then (if now <=? s_t0 x
+                                    then {| rm_est := rm_est st; rm_last := rm_last st; rm_poisoned := true |}
+                                    else {| rm_est := rfc6298_update (rm_est st) (fx (now - s_t0 x)); rm_last := rm_last st; rm_poisoned := rm_poisoned st |})
+                              else st
+                  | None => st end) (finals (ob_events o)) s in
+      (s', true)
+  | _ => (s, true)
+  end.
+
 (* verdicts: (property number, ok, class code) *)
-Record mall := { ma_core : mstate; ma_st : st_mon; ma_lt : lt_mon }.
+Record mall := { ma_core : mstate; ma_st : st_mon; ma_lt : lt_mon; ma_rtt : rtt_mon }.
 Definition mall0 (c:ccfg) : mall :=
   {| ma_core := mstate0;
      ma_st := {| sm_agreed := if cc_mech c =? 2 then Some IMI else if cc_mech c =? 3 then Some ISHA else None |};
-     ma_lt := lt_mon0 |}.
+     ma_lt := lt_mon0; ma_rtt := rtt_mon0 |}.
 Definition monitor_step (c:mcfg) (cc:ccfg) (s:mall) (op:mop) (o:obs) : mall * list (N * bool * N) :=
   let core := ma_core s in
   let core' := next_state core op o in
   let '(st', v07) := mon_C07 cc (ma_st s) (ms_marked core) op o in
   let '(lt', v08) := mon_C08 cc (ma_lt s) op o in
-  ({| ma_core := core'; ma_st := st'; ma_lt := lt' |},
+  let '(rt', v15) := mon_C15 cc core (ma_rtt s) op o in
+  ({| ma_core := core'; ma_st := st'; ma_lt := lt'; ma_rtt := rt' |},
    [(5, mon_C05 core core' o, 0); (6, mon_C06 c core op o, 0); (11, mon_C11 core' op o, 0); (12, mon_C12 c core op o, 0);
     (17, mon_C17 c core op o, 0); (3, match ob_ret o with OPanic => false | _ => true end, 0);
-    (7, v07, 0); (8, v08 =? 0, v08); (10, mon_C10 cc op o, 0); (13, mon_C13 cc op o, 0)]).
+    (7, v07, 0); (8, v08 =? 0, v08); (10, mon_C10 cc op o, 0); (13, mon_C13 cc op o, 0); (15, v15, 0)]).
